@@ -223,7 +223,12 @@ func main() {
 		if c.Kind == "sequence" {
 			return checkSequence(c.Input, c.Next)
 		}
+		r.Watch(127, c.Input)
+		defer r.WatchDone(127)
 		return checkBytes(c.Input)
+	}
+	r.Stuck = func(input []byte) kit.V {
+		return kit.V{Key: "no-return input=" + kit.Q(input), What: fmt.Sprintf("Parse/Format of %q does not return", input), Case: kase{Kind: "bytes", Input: input}}
 	}
 	r.ConcurrentReplay = true
 	r.Noise = func(i int) {
@@ -263,9 +268,11 @@ func main() {
 			if bytes.HasPrefix(s, []byte("-- ")) || bytes.Contains(s, []byte("\n-- ")) {
 				atomic.AddInt64(&nontrivial, 1)
 			}
+			r.Watch(w, s)
 			for _, v := range checkBytes(s) {
 				r.Violation(v.Key, v.What, v.Case)
 			}
+			r.WatchDone(w)
 			if n%509 == 0 && len(s) > 2 {
 				for _, v := range checkSequence(s, append([]byte("-- z --\nqq\n"), s[2:]...)) {
 					r.Violation(v.Key, v.What, v.Case)
